@@ -177,6 +177,17 @@ def same_bits(a, b):
     return a.shape == b.shape and a.dtype == b.dtype and np.array_equal(bits(a), bits(b))
 
 
+def same_values(a, b):
+    """Bit-identical except that any NaN equals any NaN.  For *computed* values: which NaN payload / sign an arithmetic
+    operation on two NaNs propagates depends on operand order and on the loop numpy picks for the array layout, so the
+    bits of a computed NaN are not a function of the stored data."""
+    a = np.asarray(a)
+    b = np.asarray(b)
+    if a.shape != b.shape or a.dtype != b.dtype:
+        return False
+    return bool(np.all((bits(a) == bits(b)) | (np.isnan(a) & np.isnan(b))))
+
+
 def float_rows_equal(a, b):
     """NaN-aware equality of two sequences of floats."""
     a = np.asarray(a, dtype=float)
